@@ -174,6 +174,9 @@ class AlternateTargetSolver:
             thresh=setting.iso_thresh,
             seed=self.seed,
         )
+        if isinstance(iso_adjs, tuple):
+            # label_map=True: iso_finder returns (adjacency matrices, label maps); the maps are recomputed per result below
+            iso_adjs = iso_adjs[0]
         results_list = []
         mc_list = []
         # repeater graph state check
